@@ -788,7 +788,11 @@ func (g *Gen) clientOp() {
 		}
 	case 10:
 		if id := g.targetNode(0.8); id != 0 {
-			g.do(Action{K: ASnapFault, N: id, I: 1 + g.rng.IntN(3)})
+			if chance(g.rng, 0.5) {
+				g.do(Action{K: ASnapRewrite, N: g.randomUp()})
+			} else {
+				g.do(Action{K: ASnapFault, N: id, I: 1 + g.rng.IntN(3)})
+			}
 		}
 	}
 }
@@ -1142,7 +1146,11 @@ func (g *Gen) virtualOp() {
 			case 1:
 				g.do(Action{K: ACheckpoint, N: real.id})
 			case 2:
-				g.do(Action{K: ASnapFault, N: real.id, I: 1})
+				if chance(g.rng, 0.5) {
+					g.do(Action{K: ASnapRewrite, N: real.id})
+				} else {
+					g.do(Action{K: ASnapFault, N: real.id, I: 1})
+				}
 			}
 		}
 	}
